@@ -39,6 +39,7 @@
      src L<i>  leaf i of the current forest as the history left it (live or spent)
        none            the element itself with its own proof
        flip            spent flag flipped
+       reinterp:0|1    the element of another kind with the same pre-image bytes (as is | presented unspent)
        field:k         body field k altered                      (k in 1..NF)
        oldver / oldveru  previous version of the body (as is / presented unspent)
        newver          a later version of the body that was never made
@@ -81,8 +82,13 @@ mvars == <<meta, acc, client, blk, undo, nextId, ghost, plan>>
 -----------------------------------------------------------------------------
 (* ------------------------------ probes ----------------------------------- *)
 Junk == "X"
+\* Membership is per kind: the pre-image of a leaf starts with the distinguisher of the element's kind, so
+\* the leaves of different kinds are disjoint even where two kinds encode to the same bytes.  f = -1 is
+\* the element of ANOTHER kind that has exactly the bytes of element <id> in version <ver> ("reinterp"):
+\* an element no history created.
 PLeaf(e) ==
   IF e.f = 0 THEN LeafHash(e.id, e.ver, e.idx, e.spent)
+  ELSE IF e.f = -1 THEN "L" \o ToString(e.id) \o "v" \o ToString(e.ver) \o "r@" \o ToString(e.idx) \o (IF e.spent THEN "s" ELSE "u")
   ELSE "L" \o ToString(e.id) \o "v" \o ToString(e.ver) \o "f" \o ToString(e.f) \o "@" \o ToString(e.idx)
            \o (IF e.spent THEN "s" ELSE "u")
 
@@ -113,6 +119,7 @@ LeafProbes(m, a, c, pv, i) ==
   IN {Pr("L", i, "none", 0, base), Pr("L", i, "flip", 0, [base EXCEPT !.spent = ~@]),
       Pr("L", i, "newver", 0, [base EXCEPT !.ver = @ + 1]),
       Pr("L", i, "idfresh", 0, [base EXCEPT !.id = 1000 + @]),
+      Pr("L", i, "reinterp", 0, [base EXCEPT !.f = -1]), Pr("L", i, "reinterp", 1, [base EXCEPT !.f = -1, !.spent = FALSE]),
       Pr("L", i, "pext", 0, [base EXCEPT !.proof = Append(P, Junk)]),
       Pr("L", i, "pmax", 0, [base EXCEPT !.proof = Pad(P, MaxH + 1)])}
      \cup {Pr("L", i, "field", k, [base EXCEPT !.f = k]) : k \in 1..NF}
@@ -192,6 +199,15 @@ SupplementSound ==
                 g == [id |-> meta[i + 1].id, ver |-> meta[i + 1].ver, f |-> 0, idx |-> i, spent |-> meta[i + 1].spent, proof |-> client[i]]
             IN /\ SuppAccept(acc, <<g, p.e>>) <=> ExactE(meta, np, p.e)
                /\ SuppAccept(acc, <<p.e, g>>) <=> ExactE(meta, np, p.e)
+
+\* Leaves of different kinds are disjoint: no reinterpreted element is a member, and its leaf is the
+\* leaf of no element of the history (in any version, at any position, with either flag).
+KindsDisjoint ==
+  Full =>
+    \A p \in Probes :
+      p.mut = "reinterp" =>
+        /\ ~MemberE(acc, p.e)
+        /\ \A i \in 1..Len(meta) : \A sp \in BOOLEAN : PLeaf(p.e) # LeafHash(meta[i].id, meta[i].ver, i - 1, sp)
 
 \* The carrier.  The supplement travels with a block, and the block can take several forms: with v1
 \* transactions or without any, with V2 block data (from AllowHeight on; possibly holding v2
